@@ -179,6 +179,22 @@ theorem C03_search_readonly_partial (P : Params K) (t : Nat) (s : St K V) (sc : 
   rw [roArrive_treeRO]
   rfl
 
+/-- instance WITH Delete at order 4: three threads — a writer that inserts and deletes, an
+    updater, and a cursor session next to a search — from a fresh tree; every reachable
+    configuration's history is linearizable -/
+example (c : Config Nat Nat)
+    (hr : Reachable (Config.init (Params.mk (fun a b : Nat => decide (a < b)) (fun _ => some 0) 4) (Tree.new 4)
+      [[COp.ins 1 1, COp.del 1, COp.ins 2 2], [COp.upd 1 (fun _ => 2) true, COp.del 2],
+       [COp.ns (K := Nat) (V := Nat) 0, COp.scan, COp.pair, COp.close, COp.get 1]]) c) :
+    Lin.Linearizable (fun a b : Nat => decide (a < b)) (Tree.new 4 : Tree Nat Nat).abs (history c) := by
+  obtain ⟨h1, h2, h3⟩ := C03_fresh_tree_ok (K := Nat) (V := Nat) (fun a b : Nat => decide (a < b)) 4 (by omega) (by omega)
+  refine C03_linearizable _ _ _ _ ⟨⟨?_, ?_, ?_⟩, rfl⟩ h1 h2 h3 rfl ?_ ?_ (Or.inl (by show 4 ≤ 4; omega)) c hr
+  · intro a; simp
+  · intro a b c h1 h2; simp at *; omega
+  · intro a b c h1; simp at *; omega
+  · intro k h; simp at h
+  · intro p hp; simp at hp; rcases hp with rfl | rfl | rfl <;> rfl
+
 end Gobptree.Conc
 
 #print axioms Gobptree.Conc.C03_search_readonly_partial
